@@ -1147,6 +1147,73 @@ class BatchNormF(OpDef):
         return o
 
 
+@reg
+class BatchNormLayer(OpDef):
+    """the BatchNorm layers through their constructor arguments: one training forward, which moves the running statistics
+    by the documented rule for the given momentum (a number in (0,1), the end points 0 = never moved and 1 = replaced, or
+    None = cumulative average), then an eval forward whose output is the result"""
+    name = "batch_norm_layer"
+    props = ("C06",)
+
+    def configs(self, tier):
+        out = []
+        for s in ([(2, 2), (2, 1, 2)] if tier == "quick" else [(2, 2), (3, 1), (2, 1, 2), (2, 1, 1, 2)]):
+            for mom in ("s", 0.0, 1.0, None):
+                for affine in ((True, False) if mom in ("s", 0.0) else (False,)):
+                    out.append({"shape": L(s), "momentum": mom, "affine": affine})
+        return out
+
+    def inputs(self, args):
+        c = args["shape"][1]
+        ins = [Inp("xt", args["shape"], differentiable=False), Inp("x", args["shape"]),
+               Inp("rm", (c,), differentiable=False), Inp("rv", (c,), differentiable=False, lo=0.1, hi=3)]
+        if args["affine"]:
+            ins += [Inp("gamma", (c,), param=True), Inp("beta", (c,), param=True)]
+        return ins
+
+    def extra(self, args, env):
+        ex = {"eps": env.scalar("eps", lo=0, hi=0.5, lo_strict=True, kind="data")}
+        if args["momentum"] == "s":
+            ex["mom"] = env.scalar("mom", lo=0, hi=1, lo_strict=True, hi_strict=True, kind="data")
+        return ex
+
+    def _mom(self, args, extra):
+        return extra["mom"] if args["momentum"] == "s" else args["momentum"]
+
+    def forward(self, args, ts, extra):
+        shape = tuple(args["shape"])
+        cls = NN().BatchNorm2d if len(shape) == 4 else NN().BatchNorm1d
+        m = cls(shape[1], eps=extra["eps"], momentum=self._mom(args, extra), affine=args["affine"])
+        m.running_mean, m.running_var = ts[2], ts[3]
+        if args["affine"]:
+            m.weight, m.bias = ts[4], ts[5]
+        m(ts[0])
+        m.eval()
+        extra["module"] = m
+        return m(ts[1])
+
+    def reference(self, args, xs, extra):
+        xt, x, rm, rv = xs[0], xs[1], xs[2], xs[3]
+        C = x.shape[1]
+        mom = self._mom(args, extra)
+        f = 1.0 if mom is None else mom        # cumulative average after the first batch: factor 1/1
+        o = objarr(x.shape)
+        for c in range(C):
+            elems = [idx for idx in np.ndindex(*x.shape) if idx[1] == c]
+            n = len(elems)
+            mu = ssum(xt[i] for i in elems) / n
+            var = ssum((xt[i] - mu) * (xt[i] - mu) for i in elems) / n
+            m2 = rm[c] * (1 - f) + mu * f
+            v2 = rv[c] * (1 - f) + var * (n / (n - 1)) * f
+            sd = ssqrt(v2 + extra["eps"])
+            for i in elems:
+                v = (x[i] - m2) / sd
+                if args["affine"]:
+                    v = v * xs[4][c] + xs[5][c]
+                o[i] = v
+        return o
+
+
 # ------------------------------------------------------------------------------------------ dropout
 @reg
 class Dropout(OpDef):
